@@ -87,6 +87,13 @@ def nd_T(ex):
     return ex.needs_drop.get('T', z3.BoolVal(True))
 
 
+def nd_all(ex):
+    """every needs_drop symbol the code asked for: used for OUTPUT arrays, whose element type is named differently in the generic bodies that
+    build them (the builder's `T` is the caller's `U`); if every type involved needs dropping, so does the output's"""
+    vals = list(ex.needs_drop.values())
+    return z3.And(*vals) if vals else z3.BoolVal(True)
+
+
 def end_no_leak(ex, st, A, N, J, where='end of scenario'):
     ex.require(st, z3.Implies(z3.And(ULT(J, N), nd_T(ex)), z3.Or(st.status[A] == DROPPED, st.status[A] == EXTERN, st.status[A] == STORED)),
                'element neither dropped nor handed to the caller when everything is gone (leak)', where)
@@ -235,7 +242,7 @@ def end_checks(ex, s2, kind, val, inputs, N, J, where='end', in_ty='T', out_ty=N
         # an element without drop glue that is abandoned on unwind is not a leak: where the element type of an array is known and the code
         # asks `needs_drop` of it, the leak obligation is stated for element types that need dropping
         nd_in = ex.needs_drop.get(in_ty, z3.BoolVal(True)) if in_ty else z3.BoolVal(True)
-        nd_out = ex.needs_drop.get(out_ty, z3.BoolVal(True)) if out_ty else z3.BoolVal(True)
+        nd_out = nd_all(ex)
         for A in inputs:
             ex.require(s2, z3.Implies(z3.And(inA, nd_in), z3.Or(s2.status[A] == EXTERN, s2.status[A] == DROPPED)), 'input element leaked on unwind', where + '(unwind)')
         for arr, stt in out_arrays(s2):
@@ -819,7 +826,7 @@ def ref_map(fns, src, nmax, which='map', name=None):
             ex.require(s2, z3.Implies(inA, ex.stat(s2, val) == LIVE), 'returned array has a slot that is not initialised', 'end')
         else:
             for arr, stt in out_arrays(s2):
-                ex.require(s2, z3.Implies(inA, z3.Or(stt == UNINIT, stt == DROPPED)), 'already-built output element leaked on unwind', 'end(unwind)')
+                ex.require(s2, z3.Implies(z3.And(inA, nd_all(ex)), z3.Or(stt == UNINIT, stt == DROPPED)), 'already-built output element leaked on unwind', 'end(unwind)')
         ex.require(s2, ex.stat(s2, ex.V) != HELD, 'value produced by caller code lost (neither stored, dropped nor returned)', 'end')
     return finish(res, ex, t0, paths, unw)
 
@@ -950,7 +957,7 @@ def zip_mixed(fns, src, nmax, which='owned_ref', name=None):
             s2.pc.append(nd)
             ex.require(s2, z3.Implies(inA, z3.Or(s2.status[Own] == EXTERN, s2.status[Own] == DROPPED)), 'owned input element leaked on unwind', 'end(unwind)')
             for arr, stt in out_arrays(s2):
-                ex.require(s2, z3.Implies(inA, z3.Or(stt == UNINIT, stt == DROPPED)), 'already-built output element leaked on unwind', 'end(unwind)')
+                ex.require(s2, z3.Implies(z3.And(inA, nd_all(ex)), z3.Or(stt == UNINIT, stt == DROPPED)), 'already-built output element leaked on unwind', 'end(unwind)')
         ex.require(s2, ex.stat(s2, ex.V) != HELD, 'value produced by caller code lost (neither stored, dropped nor returned)', 'end')
     return finish(res, ex, t0, paths, unw)
 
